@@ -118,8 +118,15 @@ Core == {"ann", "annval", "fkwT", "fkwFd", "finitF", "classvarN", "initvar", "pr
 \* bases[i]: classes class i may derive from (0 = no base); Chain = every class derives from the previous one
 Chain == <<{0}, {1}, {2}>>
 \* loads: how many times the finished module is loaded with the same extension instance (a history of loads)
-DB(nc, nf, forms, hdrs, names, bases) == [mode |-> "enum", nc |-> nc, nf |-> nf, forms |-> forms, hdrs |-> hdrs, names |-> names, bases |-> bases, loads |-> 1]
+DB(nc, nf, forms, hdrs, names, bases) == [mode |-> "enum", nc |-> nc, nf |-> nf, forms |-> forms, hdrs |-> hdrs, names |-> names, bases |-> bases, loads |-> 1,
+                                          outers |-> {"none"}, splits |-> {0}]
 DL(d, n) == [d EXCEPT !.loads = n]
+\* outers: the classes of the program are written at module level ("none") or nested in the body of an outer class that
+\*         has no __init__ ("plain") or a hand-written one ("hand"); _apply_recursively has to descend into it
+\* splits: 0 = one module; s > 0 = classes 1..s are in a first package, the others in a second package that imports
+\*         them; the first package is loaded (and its on_package_loaded event handled) before the second one is
+DO(d, o) == [d EXCEPT !.outers = o]
+DS(d, sp) == [d EXCEPT !.splits = sp]
 D(nc, nf, forms, hdrs, names) == DB(nc, nf, forms, hdrs, names, Chain)
 \* -- one class
 Dom_single2 == D(1, <<2, 0, 0>>, <<AllForms, {}, {}>>, <<HdrsSingle, {}, {}>>, <<N3, {}, {}>>)
@@ -160,6 +167,13 @@ ReloadHdrs == {H(TRUE, "u", "u", FALSE), H(TRUE, "u", "u", TRUE), H(FALSE, "u", 
 Dom_reload_q == DL(D(2, <<1, 1, 0>>, <<{"ann", "annval", "fkwT", "initvar", "classvarN"}, {"ann", "annval", "fkwT", "initvar", "classvarN"}, {}>>,
                      <<ReloadHdrs, ReloadHdrs, {}>>, <<N3, {"a", "b"}, {}>>), 2)
 Dom_reload_t == DL(Dom_pair_w, 3)
+\* -- nested in an outer class (with / without its own __init__); two packages loaded one after the other
+Dom_nested_q == DO(D(2, <<1, 1, 0>>, <<{"ann", "annval", "fkwT", "initvar", "classvarN"}, {"ann", "annval", "fkwT", "initvar", "classvarN"}, {}>>,
+                     <<ReloadHdrs, ReloadHdrs, {}>>, <<N3, {"a", "b"}, {}>>), {"plain", "hand"})
+SplitHdrs == {H(TRUE, "u", "u", FALSE), H(FALSE, "u", "u", FALSE)}
+Dom_split_q == DS(D(3, <<1, 1, 1>>, <<{"ann", "annval", "initvar"}, {"ann", "annval", "initvar"}, {"ann", "annval", "initvar"}>>,
+                    <<SplitHdrs, SplitHdrs, SplitHdrs>>, <<N3, {"a", "b"}, {"a", "b"}>>), {1, 2})
+Dom_split_t == DS(DL(Dom_pair_w, 2), {0, 1})
 Dom_tree_t == DB(3, <<1, 1, 1>>, <<TripleForms, TripleForms, TripleForms \cup {"kwonly"}>>,
                  <<TripleHdrs \cup {HA(TRUE, "u", "u")}, TripleHdrs, TripleHdrs>>, <<N3, {"a", "b"}, {"a", "b", "c"}>>, <<{0}, {1}, {1}>>)
 Dom_triple_t == D(3, <<1, 1, 1>>, <<TripleForms, TripleForms, TripleForms \cup {"kwonly"}>>,
@@ -168,7 +182,8 @@ Dom_triple_t == D(3, <<1, 1, 1>>, <<TripleForms, TripleForms, TripleForms \cup {
 \* C18_TARGETS (a list of chains written by the driver: seeded random programs beyond the enumerated bounds,
 \* counterexamples of witness runs, stored replay cases); TLC then only evaluates Impl and the reference on them.
 Dom_target  == [mode |-> "target", nc |-> 0, nf |-> <<0, 0, 0>>, forms |-> <<{}, {}, {}>>, hdrs |-> <<{}, {}, {}>>,
-                names |-> <<{}, {}, {}>>, bases |-> <<{}, {}, {}>>, loads |-> 2]
+                names |-> <<{}, {}, {}>>, bases |-> <<{}, {}, {}>>, loads |-> 2,
+                outers |-> {}, splits |-> {}]
 Targets == JsonDeserialize(IOEnv.C18_TARGETS)
 DomOf(d) == CASE d = "single2" -> Dom_single2 [] d = "single3q" -> Dom_single3q [] d = "single3" -> Dom_single3
               [] d = "single4" -> Dom_single4 [] d = "pair_w" -> Dom_pair_w [] d = "pair_q" -> Dom_pair_q
@@ -176,6 +191,7 @@ DomOf(d) == CASE d = "single2" -> Dom_single2 [] d = "single3q" -> Dom_single3q 
               [] d = "triple_q" -> Dom_triple_q [] d = "triple_t" -> Dom_triple_t [] d = "target" -> Dom_target
               [] d = "tree_q" -> Dom_tree_q [] d = "tree_t" -> Dom_tree_t
               [] d = "reload_q" -> Dom_reload_q [] d = "reload_t" -> Dom_reload_t
+              [] d = "nested_q" -> Dom_nested_q [] d = "split_q" -> Dom_split_q [] d = "split_t" -> Dom_split_t
 
 \* ---------------------------------------------------------------------------------------------
 \* State
@@ -194,8 +210,11 @@ VARIABLES chain,     \* the source so far: Seq([hdr, base, fields: Seq([name, fo
           dom,       \* the program space this behaviour belongs to (an element of Doms)
           load,      \* number of the current load of the module (same extension instances for every load)
           processed, \* Griffe: the `processed` set handed to _apply_recursively (0 = the module, i = class i)
-          hist       \* results of the earlier loads: Seq([impl, mem])
-vars == <<chain, open, pc, wf, py, members, glabels, cache, k, tid, tags, dom, load, processed, hist>>
+          hist,      \* results of the earlier loads: Seq([impl, mem])
+          outer,     \* "none" | "plain" | "hand": the outer class the program is nested in
+          split      \* 0, or the number of classes that live in the first of two packages (chosen at EndModule)
+vars == <<chain, open, pc, wf, py, members, glabels, cache, k, tid, tags, dom, load, processed, hist, outer, split>>
+layout == <<outer, split>>
 Dom == DomOf(dom)
 TargetMode == dom = "target"
 
@@ -464,8 +483,10 @@ Init ==
   /\ tid \in (IF dom = "target" THEN 1..Len(Targets) ELSE {0})
   /\ tags = {}
   /\ load = 1 /\ processed = {} /\ hist = <<>>
+  /\ outer \in (IF dom = "target" THEN {Targets[tid].outer} ELSE DomOf(dom).outers)
+  /\ split = 0
 
-T == Targets[tid]
+T == Targets[tid].chain
 
 DefClass ==        \* `@dataclass(...)` / `class Ci(Ci-1):`
   /\ pc = "build" /\ ~open /\ wf
@@ -478,7 +499,7 @@ DefClass ==        \* `@dataclass(...)` / `class Ci(Ci-1):`
           /\ t \subseteq Allow
           /\ chain' = ch /\ tags' = t
   /\ open' = TRUE
-  /\ UNCHANGED <<pc, wf, py, members, glabels, cache, k, tid, dom, load, processed, hist>>
+  /\ UNCHANGED <<pc, wf, py, members, glabels, cache, k, tid, dom, load, processed, hist, layout>>
 
 \* the statements that may come next in the body of the open class
 Candidates(c) ==
@@ -504,7 +525,7 @@ DefField ==        \* one more statement in the body of the open class
                t == Tags(ch)
            IN /\ t \subseteq Allow
               /\ chain' = ch /\ tags' = t
-  /\ UNCHANGED <<open, pc, wf, py, members, glabels, cache, k, tid, dom, load, processed, hist>>
+  /\ UNCHANGED <<open, pc, wf, py, members, glabels, cache, k, tid, dom, load, processed, hist, layout>>
 
 EndClass ==        \* the class statement ends: the visitor has its members, CPython runs the decorator
   /\ pc = "build" /\ open
@@ -518,22 +539,29 @@ EndClass ==        \* the class statement ends: the visitor has its members, CPy
         /\ glabels' = Append(glabels, IF c.hdr.dc THEN {"dataclass"} ELSE {})     \* decorators_to_labels
         /\ cache' = Append(cache, [set |-> FALSE, val |-> <<>>])
   /\ open' = FALSE
-  /\ UNCHANGED <<chain, pc, k, tid, tags, dom, load, processed, hist>>
+  /\ UNCHANGED <<chain, pc, k, tid, tags, dom, load, processed, hist, layout>>
 
 \* DataclassesExtension.on_package_loaded: `_apply_recursively(pkg, set())` - a NEW set for every event; the module
 \* itself is the first path put into it (and no module path is in a new set, so the walk always starts)
 FreshProcessed == {0}
 
+OuterId == 99                         \* the outer class in `processed`
+FirstK == IF outer = "none" THEN 1 ELSE 0
+
 EndModule ==       \* GriffeLoader._post_load -> extensions.call("on_package_loaded")
   /\ pc = "build" /\ ~open /\ N >= 1
   /\ (TargetMode => (N = Len(T) \/ ~wf))
-  /\ pc' = "apply" /\ k' = 1
+  /\ \E sp \in (IF TargetMode THEN {Targets[tid].split} ELSE Dom.splits) :
+       /\ (sp > 0 => outer = "none")
+       /\ (~TargetMode => sp < N)
+       /\ split' = IF sp < N THEN sp ELSE 0       \* (a supplied program cut short by a TypeError is one package)
+  /\ pc' = "apply" /\ k' = FirstK
   /\ processed' = FreshProcessed
-  /\ UNCHANGED <<chain, open, wf, py, members, glabels, cache, tid, tags, dom, load, hist>>
+  /\ UNCHANGED <<chain, open, wf, py, members, glabels, cache, tid, tags, dom, load, hist, outer>>
 
 \* _apply_recursively reaches class k
 ApplyRecursively ==
-  /\ pc = "apply" /\ k <= N
+  /\ pc = "apply" /\ k >= 1 /\ k <= N
   /\ processed' = processed \cup {k}                     \* processed.add(mod_cls.canonical_path)
   /\ IF k \in processed                                  \* if mod_cls.canonical_path in processed: return
      THEN UNCHANGED <<members, glabels, cache>>
@@ -560,8 +588,26 @@ ApplyRecursively ==
                                       ELSE cache[j]]
           /\ members' = [members EXCEPT ![k] = pruned]
   /\ k' = k + 1
-  /\ pc' = IF k = N THEN "done" ELSE "apply"
-  /\ UNCHANGED <<chain, open, wf, py, tid, tags, dom, load, hist>>
+  /\ pc' = IF k = N THEN "done" ELSE IF k = split THEN "nextpkg" ELSE "apply"
+  /\ UNCHANGED <<chain, open, wf, py, tid, tags, dom, load, hist, layout>>
+
+\* _apply_recursively reaches the outer class the program is nested in.  It is not a dataclass and has no dataclass
+\* ancestor: labelling and (behind the "__init__" guard) _set_dataclass_init / _del_members... change nothing.  Then
+\*     for member in mod_cls.members.values(): if not member.is_alias and member.is_class: _apply_recursively(...)
+\* runs WHETHER OR NOT the class has its own __init__ (the guard only covers the two calls above).
+ApplyOuter ==
+  /\ pc = "apply" /\ k = 0
+  /\ processed' = processed \cup {OuterId}
+  /\ k' = 1
+  /\ UNCHANGED <<chain, open, pc, wf, py, members, glabels, cache, tid, tags, dom, load, hist, layout>>
+
+\* the first package is done; the loader now loads the second one (its classes derive from classes of the first, which
+\* stay in the modules collection) and fires on_package_loaded for it: a fresh `processed`, but the SAME functools.cache
+\* - the parameters of the first package's dataclasses were cached before their InitVar members were deleted.
+NextPackage ==
+  /\ pc = "nextpkg"
+  /\ pc' = "apply" /\ processed' = FreshProcessed
+  /\ UNCHANGED <<chain, open, wf, py, members, glabels, cache, k, tid, tags, dom, load, hist, layout>>
 
 \* ---- a history of loads ----------------------------------------------------------------------------
 \* The module is loaded again while the extension instances live on: loader.load(...) once more on the same
@@ -581,10 +627,10 @@ LoadAgain ==
   /\ glabels' = [i \in 1..N |-> IF chain[i].hdr.dc THEN {"dataclass"} ELSE {}]
   /\ cache' = [i \in 1..N |-> [set |-> FALSE, val |-> <<>>]]
   /\ processed' = FreshProcessed
-  /\ load' = load + 1 /\ k' = 1 /\ pc' = "apply"
-  /\ UNCHANGED <<chain, open, wf, py, tid, tags, dom>>
+  /\ load' = load + 1 /\ k' = FirstK /\ pc' = "apply"
+  /\ UNCHANGED <<chain, open, wf, py, tid, tags, dom, layout>>
 
-Next == DefClass \/ DefField \/ EndClass \/ EndModule \/ ApplyRecursively \/ LoadAgain
+Next == DefClass \/ DefField \/ EndClass \/ EndModule \/ ApplyRecursively \/ ApplyOuter \/ NextPackage \/ LoadAgain
 Spec == Init /\ [][Next]_vars
 
 \* ---------------------------------------------------------------------------------------------
@@ -629,7 +675,7 @@ EncRes(r) == [own |-> r.own, params |-> Enc(r.params), dataclass |-> r.dataclass
 CaseRec ==
   [chain |-> [i \in 1..N |-> [hdr |-> chain[i].hdr, base |-> chain[i].base,
                               fields |-> [j \in 1..Len(chain[i].fields) |-> <<chain[i].fields[j].name, chain[i].fields[j].form>>]]],
-   dom |-> dom, tid |-> tid, wf |-> wf, tags |-> tags, loads |-> load,
+   dom |-> dom, tid |-> tid, wf |-> wf, tags |-> tags, loads |-> load, outer |-> outer, split |-> split,
    hist |-> [l \in 1..Len(hist) |-> [impl |-> [i \in 1..N |-> EncRes(hist[l].impl[i])], mem |-> hist[l].mem]],
    impl |-> [i \in 1..N |-> EncRes(ImplRes(i))],
    ref |-> [i \in 1..N |-> EncRes(PyRes(i))],
